@@ -284,7 +284,7 @@ class Lithium:
             # Hopefully we don't get any errors other than "File exists" :)
             try:
                 temp_dir.mkdir()
-            except OSError:
+            except FileExistsError:
                 i += 1
             else:
                 self.temp_dir = temp_dir
